@@ -452,6 +452,14 @@ func c09BDN(t *rapid.T, ev *evProp) {
 		violationOrKnown(t, ev, key("aggregate-"+route), "aggregation failed: %v\n%s", err, ctx)
 		return
 	}
+	// the same aggregation again on the same mask and signatures: identical results (aggregation must
+	// not disturb the mask's keys or the caller's signatures)
+	if s2, e1 := sch.AggregateSignatures(sigs, mask); e1 != nil || !s2.Equal(aggSig) {
+		violationOrKnown(t, ev, key("aggregate-repeat"), "a second AggregateSignatures gives another result (err=%v)\n%s", e1, ctx)
+	}
+	if p2, e2 := sch.AggregatePublicKeys(mask); e2 != nil || !p2.Equal(aggPub) {
+		violationOrKnown(t, ev, key("aggregate-repeat"), "a second AggregatePublicKeys gives another result (err=%v)\n%s", e2, ctx)
+	}
 	// reference: sum (c_i+1) * sigma_i and sum (c_i+1) * X_i
 	coefs := bdnCoefs(t, c.key.G, pubs)
 	refSig, refPub := nullPoint(c.sig), nullPoint(c.key)
@@ -617,6 +625,14 @@ func c09CoSi(t *rapid.T, ev *evProp) {
 	}
 	var sig []byte
 	if cnt > 0 {
+		// a leader may aggregate the same commitment / response objects more than once (a retry, a
+		// sub-tree first): aggregation must not disturb its inputs
+		rehearse := rapid.Bool().Draw(t, "rehearse")
+		if rehearse {
+			k := rapid.IntRange(1, len(Vs)).Draw(t, "rehearse.k")
+			_, _, _ = cosi.AggregateCommitments(suite, Vs[:k], masks[:k])
+			ctx += fmt.Sprintf(" (first %d commitments aggregated once before)", k)
+		}
 		aggV, aggMask, err := cosi.AggregateCommitments(suite, Vs, masks)
 		if err != nil || !bytes.Equal(aggMask, final) {
 			violationOrKnown(t, ev, key("aggregate"), "AggregateCommitments: err=%v mask=%x want %x\n%s", err, aggMask, final, ctx)
@@ -639,6 +655,9 @@ func c09CoSi(t *rapid.T, ev *evProp) {
 			}
 			rs = append(rs, r)
 			k++
+		}
+		if rehearse {
+			_, _ = cosi.AggregateResponses(suite, rs[:rapid.IntRange(1, len(rs)).Draw(t, "rehearse.r")])
 		}
 		aggR, err := cosi.AggregateResponses(suite, rs)
 		if err != nil {
